@@ -330,7 +330,7 @@ func runC03(c *Ctx) {
 		return
 	}
 	loop := r.FnLoop
-	temp, haveTemp := c.tempCode()
+	_ = loop
 
 	// ---- R03.1
 	c.lossSignalRule("R03.1")
@@ -348,55 +348,7 @@ func runC03(c *Ctx) {
 	c.enqueueRule("R03.5")
 
 	// ---- R03.6
-	if arm, ok := w.Arms["requests"]; ok && arm.Body != nil {
-		blocks := armBlocks(arm)
-		construct := fmt.Sprintf("%s: request-accept arm", fname(loop))
-		isRegister := c.isRegisterInflight
-		isAnswer := c.isCompletion
-		leavesArm := func(in ssa.Instruction) bool { return !inRegion(blocks, in) || isReturn(in) }
-		okAll := true
-		for _, assumeNil := range []bool{true, false} {
-			if wv := reachFromBlockF(arm.Body, leavesArm, func(in ssa.Instruction) bool { return isRegister(in) || isAnswer(in) }, c.assumeID(assumeNil)); wv != nil {
-				okAll = false
-				kind := "an id-bearing request"
-				if assumeNil {
-					kind = "a notification"
-				}
-				c.bad("R03.6", construct, c.ipos(wv), "a path through the arm neither registers nor answers "+kind+": its caller waits for ever")
-			}
-		}
-		// connection-unusable path
-		flagBranch := c.flagSetBranch(arm)
-		if flagBranch == nil {
-			okAll = false
-			c.bad("R03.6", construct, c.ipos(arm.Body.Instrs[0]), "the arm no longer tests the connection-unusable flag: requests accepted while the link is down are written to the dead socket and never answered")
-		} else {
-			if wv := reachFromBlock(flagBranch, func(in ssa.Instruction) bool { return isRegister(in) || c.isRequestWrite(in) }, leavesArm); wv != nil {
-				okAll = false
-				c.bad("R03.6", construct, c.ipos(wv), "on the connection-unusable path the request is still registered or written")
-			}
-			var ans ssa.Instruction
-			reachFromBlock(flagBranch, func(in ssa.Instruction) bool {
-				if isAnswer(in) {
-					ans = in
-					return true
-				}
-				return false
-			}, leavesArm)
-			if ans == nil {
-				okAll = false
-				c.bad("R03.6", construct, c.ipos(flagBranch.Instrs[0]), "the connection-unusable path does not answer the caller")
-			} else if code, ok := c.completionErrCode(ans); !ok || !haveTemp || code != temp {
-				okAll = false
-				c.bad("R03.6", construct, c.ipos(ans), "the immediate failure does not carry the temporary-connection error code")
-			}
-		}
-		if okAll {
-			c.ok("R03.6", construct, c.ipos(arm.Body.Instrs[0]), "total on both id polarities; unusable path answers with the temporary code only")
-		}
-	} else {
-		c.und("R03.6", "request-accept arm", "-", "the select arm receiving from the request queue could not be recovered")
-	}
+	c.acceptArmRule("R03.6")
 
 	// ---- R03.7
 	{
@@ -1020,5 +972,68 @@ func (c *Ctx) unbufferedQueue(rule string) {
 	}
 	if n == 0 {
 		c.und(rule, "request queue", "-", "no make of the request queue found")
+	}
+}
+
+// acceptArmRule: R03.6 (also registered under C05): the request-accept arm of the connection loop is
+// total — every path registers the request or answers it, for both id polarities — and on the
+// connection-unusable path it answers with the temporary error without registering or writing.
+func (c *Ctx) acceptArmRule(rule string) {
+	r := c.R
+	w := c.ws()
+	loop := r.FnLoop
+	temp, haveTemp := c.tempCode()
+	if loop == nil {
+		c.und(rule, "connection loop", "-", "not resolved")
+		return
+	}
+	if arm, ok := w.Arms["requests"]; ok && arm.Body != nil {
+		blocks := armBlocks(arm)
+		construct := fmt.Sprintf("%s: request-accept arm", fname(loop))
+		isRegister := c.isRegisterInflight
+		isAnswer := c.isCompletion
+		leavesArm := func(in ssa.Instruction) bool { return !inRegion(blocks, in) || isReturn(in) }
+		okAll := true
+		for _, assumeNil := range []bool{true, false} {
+			if wv := reachFromBlockF(arm.Body, leavesArm, func(in ssa.Instruction) bool { return isRegister(in) || isAnswer(in) }, c.assumeID(assumeNil)); wv != nil {
+				okAll = false
+				kind := "an id-bearing request"
+				if assumeNil {
+					kind = "a notification"
+				}
+				c.bad(rule, construct, c.ipos(wv), "a path through the arm neither registers nor answers "+kind+": its caller waits for ever")
+			}
+		}
+		// connection-unusable path
+		flagBranch := c.flagSetBranch(arm)
+		if flagBranch == nil {
+			okAll = false
+			c.bad(rule, construct, c.ipos(arm.Body.Instrs[0]), "the arm no longer tests the connection-unusable flag: requests accepted while the link is down are written to the dead socket and never answered")
+		} else {
+			if wv := reachFromBlock(flagBranch, func(in ssa.Instruction) bool { return isRegister(in) || c.isRequestWrite(in) }, leavesArm); wv != nil {
+				okAll = false
+				c.bad(rule, construct, c.ipos(wv), "on the connection-unusable path the request is still registered or written")
+			}
+			var ans ssa.Instruction
+			reachFromBlock(flagBranch, func(in ssa.Instruction) bool {
+				if isAnswer(in) {
+					ans = in
+					return true
+				}
+				return false
+			}, leavesArm)
+			if ans == nil {
+				okAll = false
+				c.bad(rule, construct, c.ipos(flagBranch.Instrs[0]), "the connection-unusable path does not answer the caller")
+			} else if code, ok := c.completionErrCode(ans); !ok || !haveTemp || code != temp {
+				okAll = false
+				c.bad(rule, construct, c.ipos(ans), "the immediate failure does not carry the temporary-connection error code")
+			}
+		}
+		if okAll {
+			c.ok(rule, construct, c.ipos(arm.Body.Instrs[0]), "total on both id polarities; unusable path answers with the temporary code only")
+		}
+	} else {
+		c.und(rule, "request-accept arm", "-", "the select arm receiving from the request queue could not be recovered")
 	}
 }
